@@ -1997,6 +1997,9 @@ class Interp:
         if name == "__class__":
             return obj.cls
         if obj.cls is None:
+            if obj.fields.get("__external__"):
+                # stands for an object of a dependency of which only the listed attributes are modelled
+                raise Unsupported("attribute %s of external object %s is not modelled" % (name, obj.name))
             raise PyRaise(AttributeError, (name,))
         d = _find_in_mro(obj.cls, name)
         if d is _MISSING or d is None and not _has_in_mro(obj.cls, name):
